@@ -167,6 +167,15 @@ func genGRPC(r *rand.Rand, protocol, codec string, kind svc.Kind) *hostile {
 	if r.Intn(10) == 0 {
 		tr["Grpc-Status"] = append(tr["Grpc-Status"], "3")
 	}
+	if r.Intn(12) == 0 {
+		// announced in the Trailer header but never sent: net/http leaves the key
+		// in Response.Trailer with no values
+		tr["Grpc-Status"] = nil
+		if r.Intn(2) == 0 {
+			tr["Grpc-Message"] = nil
+			tr["Grpc-Status-Details-Bin"] = []string{}
+		}
+	}
 	// application metadata with adversarial casing where it survives to the
 	// library (in-body trailers).
 	mk := fmt.Sprintf("x-verif-%d", r.Intn(100))
